@@ -14,7 +14,7 @@ structure VOrd (V : Type) where
 
 variable {V : Type} (O : VOrd V)
 
-abbrev Field := Nat
+abbrev Field := List UInt8
 
 structure Doc (V : Type) where
   has : Field → Bool
